@@ -46,6 +46,20 @@ def parse_gq(s):
     return (Fraction(p[0]), Fraction(p[1]) if len(p) > 1 else Fraction(0))
 
 
+def finding_listed(chk, key):
+    """is there an entry (any status) in known-findings.json whose `match` is contained in `key`?  Probes of defects
+    that are present on the current tree run only once the coordinator has listed them (status known: reported as
+    KNOWN-FINDING; status fixed: a real check from then on), so that the unchanged tree stays green meanwhile."""
+    for f in chk.findings:
+        m = f.get('match', {})
+        if m and all((key.get(k) in v) if isinstance(v, list) else key.get(k) == v for k, v in m.items()):
+            return True
+    return False
+
+
+GAIN = 'Ka'          # symbolic gain of factored source expressions (not `k`: that is Lcapy's discrete-frequency variable)
+
+
 class ConstSmp:
     """constants of the time-domain forms met here are Gaussian rationals"""
 
@@ -91,6 +105,26 @@ def gen_value(rng, kind):
         if rng.random() < 0.5:
             return {'args': '{%d*cos(%s*t + atan(4/3))}' % (A, sx(w)), 'tokens': [ac_tok(Fraction(3 * k), Fraction(4 * k))], 'alt': None, 'kind': kind}
         return {'args': '{%d*sin(%s*t + atan(3/4))}' % (A, sx(w)), 'tokens': ['ac:%s:%s:%s' % (fstr(w), fstr(3 * k), fstr(4 * k))], 'alt': None, 'kind': kind}
+    if kind == 'fact':
+        # ONE product term: symbolic gain times a sum of cos and sin of one frequency (not expanded by SymPy)
+        a, b = Fraction(rng.randint(1, 5)) * rng.choice([1, -1]), Fraction(rng.randint(1, 5)) * rng.choice([1, -1])
+        kv = Fraction(rng.randint(1, 7), rng.randint(1, 3))
+        return {'args': '{%s*(%s*cos(%s*t) + %s*sin(%s*t))}' % (GAIN, sx(a), sx(w), sx(b), sx(w)),
+                'tokens': ['ac:%s:%s:%s' % (fstr(w), fstr(kv * a), fstr(kv * b))],
+                'alt': '{%s*cos(%s*t) + %s*sin(%s*t)}' % (sx(kv * a), sx(w), sx(kv * b), sx(w)), 'kind': kind, 'subs': {GAIN: fstr(kv)}}
+    if kind in ('fact-dc', 'fact-tr'):
+        # products that expand into SEVERAL kinds (dc + ac, ac + transient)
+        a = Fraction(rng.randint(1, 5))
+        d = Fraction(rng.randint(1, 5))
+        kv = Fraction(rng.randint(1, 7), rng.randint(1, 3))
+        if kind == 'fact-dc':
+            return {'args': '{%s*(%s + %s*cos(%s*t))}' % (GAIN, sx(d), sx(a), sx(w)),
+                    'tokens': ['dc:%s' % fstr(kv * d), 'ac:%s:%s:0' % (fstr(w), fstr(kv * a))],
+                    'alt': '{%s + %s*cos(%s*t)}' % (sx(kv * d), sx(kv * a), sx(w)), 'kind': kind, 'subs': {GAIN: fstr(kv)}}
+        p = rng.randint(1, 3)
+        return {'args': '{%s*(%s + %s*exp(-%d*t)*u(t))}' % (GAIN, sx(d), sx(a), p),
+                'tokens': ['dc:%s' % fstr(kv * d), 'ep:%s:0:%d' % (fstr(kv * a), -p)],
+                'alt': '{%s + %s*exp(-%d*t)*u(t)}' % (sx(kv * d), sx(kv * a), p), 'kind': kind, 'subs': {GAIN: fstr(kv)}}
     v = Fraction(rng.randint(1, 9), rng.randint(1, 3)) * rng.choice([1, -1])
     if kind == 'dc':
         return {'args': 'dc %s' % fs(v), 'tokens': ['dc:%s' % fstr(v)], 'alt': None, 'kind': kind}
@@ -117,15 +151,21 @@ def gen_value(rng, kind):
     raise ValueError(kind)
 
 
-def gen_lap_case(rng, idx):
+def gen_lap_case(rng, idx, probe=None):
     """-> JSON-serialisable description of one LAP case"""
     r = lambda: fs(Fraction(rng.randint(1, 6), rng.randint(1, 3)))   # noqa
     ivp = (idx % 3 == 2)
     ic = lambda: (' ' + fs(Fraction(rng.randint(1, 5), rng.randint(1, 2)) * rng.choice([1, -1]))) if ivp else ''   # noqa
     tmpl = idx % 5
-    phased = ['ack', 'accx', 'cs', 'ph']
-    k1 = phased[idx % 4] if not ivp else ['ack', 'accx'][idx % 2]
-    k2 = rng.choice(['dc', 'step', 'exp', 'mix', 'ack', 'cs'])
+    phased = ['ack', 'accx', 'cs', 'ph', 'fact', 'fact']
+    k1 = phased[idx % 6] if not ivp else ['ack', 'accx'][idx % 2]
+    k2 = rng.choice(['dc', 'step', 'exp', 'mix', 'ack', 'cs', 'fact'])
+    if not ivp and idx % 4 == 1:
+        # DC-driven without ac: the route `laplace()` (all sources in ONE Laplace analysis, initial conditions from the
+        # dc solution) is defined
+        k1, k2 = 'dc', rng.choice(['step', 'exp', 'step', 'dc'])
+    if probe:
+        k1 = probe
     srcs = []
     plain = []
     if tmpl == 0:
@@ -145,13 +185,16 @@ def gen_lap_case(rng, idx):
         srcs = [('V1', '1', '0', k1)]
         plain = ['R1 1 2 %s' % fs(R), 'L1 2 3 %s' % fs(L), 'C1 3 0 %s%s' % (fs(C), ic())]
     sl = []
+    subs = {}
     for (nm, a, b, kd) in srcs:
         v = gen_value(rng, kd)
         sl.append({'name': nm, 'n1': a, 'n2': b, 'args': v['args'], 'tokens': v['tokens'], 'alt': v['alt'], 'kind': v['kind']})
+        subs.update(v.get('subs', {}))
     s0 = Fraction(rng.randint(1, 9), rng.randint(2, 5))
     nodes = sorted({x for l in plain for x in l.split()[1:3]} - {'0'})
     rng.shuffle(nodes)
-    return {'stream': 'lap', 'sources': sl, 'plain': plain, 's': fstr(s0), 'ivp': ivp, 'nodes': nodes[:2], 'template': tmpl}
+    return {'stream': 'lap', 'sources': sl, 'plain': plain, 's': fstr(s0), 'ivp': ivp, 'nodes': nodes[:2], 'template': tmpl,
+            'subs': subs, 'probe': probe}
 
 
 def lap_case(chk, drv, desc, L):
@@ -169,14 +212,29 @@ def lap_case(chk, drv, desc, L):
     for q in srcs:
         chk.count('lap-source-kind', q['kind'])
 
-    def at_s(e):
+    subs = {k_: Fraction(v_) for k_, v_ in (desc.get('subs') or {}).items()}
+
+    def num(e):
+        """substitute the numeric values of the symbolic gains"""
         x = e.sympy if hasattr(e, 'sympy') else S.sympify(e)
-        x = x.subs(ss.sympy, R(s0))
+        if subs:
+            x = x.subs({q: R(subs[q.name]) for q in x.free_symbols if q.name in subs})
+        return x
+
+    def gr(e):
+        x = S.expand_complex(num(e))
+        g = common.gauss_rational(x)
+        if g is None:
+            g = common.gauss_rational(S.simplify(x))
+        return g
+
+    def at_s(e):
+        x = num(e).subs(ss.sympy, R(s0))
         return common.gauss_rational(S.simplify(x))
 
     def canon_time(e):
         """sympy time-domain expression -> raw term tokens (GQ valued) or None"""
-        e = S.expand_trig(e)
+        e = S.expand_trig(num(e))
         cn = TCanon(S, tt.sympy, ConstSmp())
         sg = cn.signal(e)
         if sg is None:
@@ -246,14 +304,14 @@ def lap_case(chk, drv, desc, L):
                 toks = []
                 ok = True
                 if not desc['ivp']:
-                    dcv = common.gauss_rational(V.dc.sympy)
+                    dcv = gr(V.dc)
                     if dcv is None:
                         ok = False
                     elif dcv != (0, 0):
                         toks.append('dc:%s' % gq(dcv))
                     phs = {}
                     for w, ph in V.ac.items():
-                        g = common.gauss_rational(S.expand_complex(ph.sympy))
+                        g = gr(ph)
                         wk = common.gauss_rational(S.sympify(w))
                         if g is None or wk is None:
                             ok = False
@@ -303,22 +361,27 @@ def lap_case(chk, drv, desc, L):
             elif 'ac' in model[n] and not desc['ivp']:
                 try:
                     for w, ph in V.ac.items():
-                        g = common.gauss_rational(S.expand_complex(ph.sympy))
+                        g = gr(ph)
                         wk = common.gauss_rational(S.sympify(w))[0]
                         mv = model[n]['ac'].get(wk, (Fraction(0), Fraction(0)))
                         if g is not None and g != mv:
                             bad = ('phasor %s' % wk, mv, g)
-                    g = common.gauss_rational(V.dc.sympy)
+                    g = gr(V.dc)
                     if g is not None and g != model[n]['dc']:
                         bad = ('dc', model[n]['dc'], g)
                 except Exception as e:   # noqa
                     chk.count('lcapy-error', 'lap-model-parts:' + type(e).__name__)
-            if bad:
+            if bad and desc.get('probe'):
+                chk.count('model', 'lap-probe-model-differs')
+            elif bad:
                 chk.coverage['correspondence']['disagreements'] += 1
                 L['disagreements'].append({'stream': 'lap', 'netlist': lines, 's': desc['s'], 'node': n, 'what': bad[0], 'model': str(bad[1]), 'lcapy': str(bad[2])})
 
-    # (d) initial-value problem: ac keyword == the same source as a time-domain expression
-    if desc['ivp'] and any(q['alt'] for q in srcs):
+    # (e) every public regrouping route of netlist.py must describe the same signal as the default per-kind route
+    ncex += route_checks(chk, drv, desc, L, cct, obs, model, at_s, gr, canon_time, lean_total, base_in)
+
+    # (d) the same source written differently (ac keyword / factored product  vs  expanded time-domain expression)
+    if any(q['alt'] for q in srcs) and (desc['ivp'] or any(q['kind'].startswith('fact') for q in srcs)):
         alt = ['%s %s %s %s' % (q['name'], q['n1'], q['n2'], q['alt'] or q['args']) for q in srcs] + desc['plain']
         try:
             with common.time_limit(90):
@@ -327,16 +390,111 @@ def lap_case(chk, drv, desc, L):
                     V2 = at_s(c2[n].V.laplace())
                     if Vs is None or V2 is None:
                         continue
-                    chk.count('oracle', 'lap-ivp-ac-keyword-checked')
+                    chk.count('oracle', 'lap-ivp-ac-keyword-checked' if desc['ivp'] else 'lap-factored-vs-expanded-checked')
                     if V2 != Vs:
                         ncex += 1
-                        chk.counterexample({'kind': 'laplace-reassembly', 'route': 'ivp-ac-keyword'},
+                        chk.counterexample({'kind': 'laplace-reassembly', 'route': 'ivp-ac-keyword'} if desc['ivp'] else
+                                           dict({'kind': 'regrouping', 'route': 'factored-source'}, **({'probe': desc['probe']} if desc.get('probe') else {})),
                                            {'input': dict(base_in, node=n, alt_netlist=alt),
                                             'lcapy': {'ac keyword': str(Vs), 'time-domain expression': str(V2)},
                                             'spec': 'the response does not depend on how the same source is written'},
-                                           'initial-value problem: V(s) of node %s differs between the ac-keyword source and the same source as a t-domain expression' % n)
+                                           'V(s) of node %s differs between the source as written (ac keyword / factored product) and the same source as an expanded t-domain expression' % n)
         except (Exception, common.TimeLimit) as e:   # noqa
             chk.count('lcapy-error', 'lap-ivp-alt:' + type(e).__name__)
+    return ncex
+
+
+ROUTES = ['dc', 'ac', 'transient', 'time', 'laplace']      # Netlist.dc(), ac(omega), transient(), time(), laplace()
+# (Netlist.noise() is exercised in the NOISE stream; transient_time() / transient_laplace() select the misspelt kinds
+#  'tranient_time' / 'tranient_laplace' and raise -- counted, an error is not a wrong result)
+
+
+def route_checks(chk, drv, desc, L, cct, obs, model, at_s, gr, canon_time, lean_total, base_in):
+    """`however the sources are grouped`: the sub-netlists returned by the public regrouping methods of netlist.py give
+    the part of the default response they stand for (dc(), ac(w), transient()) or the whole of it (time(), laplace())."""
+    S = L['S']
+    ncex = 0
+    if desc['ivp']:
+        return 0
+    s0 = Fraction(desc['s'])
+
+    def bad(route, n, got, want, detail=None):
+        key = {'kind': 'regrouping', 'route': route + '()'}
+        if desc.get('probe'):
+            key['probe'] = desc['probe']
+        return chk.counterexample(key, {'input': dict(base_in, node=n, route=route), 'lcapy': {'route ' + route + '()': str(got), 'default per-kind route': str(want)},
+                                        'spec': 'every grouping of the sources describes the same signal' + (' ; ' + detail if detail else '')},
+                                  'node %s: Netlist.%s() gives a different signal than the default per-kind analysis' % (n, route))
+    for route in ROUTES:
+        try:
+            with common.time_limit(60):
+                if route == 'dc':
+                    r = cct.dc()
+                    for n, (V, Vs) in obs.items():
+                        got, want = gr(r[n].V.dc), gr(V.dc)
+                        if got is None or want is None:
+                            continue
+                        chk.count('oracle', 'route-dc-checked')
+                        if got != want:
+                            ncex += 1
+                            bad(route, n, got, want)
+                elif route == 'ac':
+                    for n, (V, Vs) in obs.items():
+                        for w, ph in V.ac.items():
+                            r = cct.ac(w)
+                            phs = r[n].V.ac
+                            got = gr(list(phs.values())[0]) if len(phs) == 1 else ((Fraction(0), Fraction(0)) if len(phs) == 0 else None)
+                            want = gr(ph)
+                            if got is None or want is None:
+                                continue
+                            chk.count('oracle', 'route-ac-checked')
+                            if got != want:
+                                ncex += 1
+                                bad(route, n, got, want, 'omega = %s' % w)
+                elif route == 'transient':
+                    r = cct.transient()
+                    for n, (V, Vs) in obs.items():
+                        got, want = at_s(r[n].V.laplace()), at_s(V.transient_laplace)
+                        if got is None or want is None:
+                            continue
+                        chk.count('oracle', 'route-transient-checked')
+                        if got != want:
+                            ncex += 1
+                            bad(route, n, got, want)
+                elif route == 'time':
+                    r = cct.time()
+                    for n, (V, Vs) in obs.items():
+                        got = at_s(r[n].V.laplace())
+                        if got is None or Vs is None:
+                            continue
+                        chk.count('oracle', 'route-time-checked')
+                        if got != Vs:
+                            ncex += 1
+                            bad(route, n, got, Vs)
+                else:
+                    r = cct.laplace()
+                    if r is None:
+                        chk.count('lcapy', 'route-laplace-undefined(ac source)')
+                        continue
+                    for n, (V, Vs) in obs.items():
+                        Vr = r[n].V
+                        got = at_s(Vr.laplace())
+                        if got is None or Vs is None:
+                            continue
+                        chk.count('oracle', 'route-laplace-checked')
+                        if got != Vs:
+                            ncex += 1
+                            bad(route, n, got, Vs, 'V(s) at s = %s' % desc['s'])
+                            continue
+                        vt = canon_time(Vr.time().sympy)
+                        if vt is not None:
+                            chk.count('oracle', 'route-laplace-time-checked')
+                            wt = lean_total(vt)
+                            if wt != Vs:
+                                ncex += 1
+                                bad(route, n, wt, Vs, 'Lean transform of the V(t) of the route')
+        except (Exception, common.TimeLimit) as e:   # noqa
+            chk.count('lcapy-error', 'route-%s:%s' % (route, type(e).__name__))
     return ncex
 
 
@@ -466,6 +624,13 @@ def noise_case(chk, drv, desc, L):
                 for nm, nid in zip(names, ids):
                     if nid is not None:
                         checks.append(('whole-minus:' + nm, whole - parts[nm], [x for x in names if x != nm]))
+                nkey = {'kind': 'regrouping', 'route': 'noise()'}
+                if finding_listed(chk, nkey):
+                    # Netlist.noise(): the sub-netlist of the noise parts must give the same noise voltage
+                    try:
+                        checks.append(('route-noise()', observe(cct.noise(), o), list(names)))
+                    except Exception as e:   # noqa
+                        chk.count('lcapy-error', 'route-noise:' + type(e).__name__)
                 for (what, V, only) in checks:
                     got = n2(V)
                     want = lean_power(vs, only)
@@ -476,7 +641,7 @@ def noise_case(chk, drv, desc, L):
                     if got != (want, 0):
                         ncex += 1
                         shared = len({x for x in ids if x}) < len([x for x in ids if x])
-                        chk.counterexample({'kind': 'noise-combination', 'what': what.split(':')[0], 'shared_ids': shared},
+                        chk.counterexample(nkey if what == 'route-noise()' else {'kind': 'noise-combination', 'what': what.split(':')[0], 'shared_ids': shared},
                                            {'input': dict(base_in, combination=what),
                                             'lcapy': {'n^2': str(got), 'V': str(V)},
                                             'spec': 'Lean noisePower of the transfer functions of the Lean MNA model = %s ; per-source responses %s' % (want, {k: str(v) for k, v in vs.items()})},
@@ -828,15 +993,92 @@ def groups_case(chk, drv, desc, L):
                 got.append('O:%s:%s' % (tk[1], tk[2]))
             elif tk[0][0] in 'VI' and tk[0] in orig and tk[-1] == '0' and orig[tk[0]][-1] != '0' and 'noise' not in tk:
                 got.append('zeroed:%s:%s:%s' % (tk[0], tk[1], tk[2]))
-            elif tk[0][0] in 'CL' and tk[0] in orig and len(tk) < len(orig[tk[0]]):
+            elif tk[0][0] in 'CL' and tk[0] in orig and (len(tk) < len(orig[tk[0]]) or
+                                                          (len(tk) == 5 and tk[4] == '0' and orig[tk[0]][4] != '0')):
+                # the initial condition was removed (or zeroed: both mean 'no initial energy')
                 got.append('noic:' + tk[0])
             else:
                 got.append('kept:' + tk[0])
         mrep = drv.ask1('grp.kill %s %s || %s' % (kl['mode'], ','.join(kl['names']) or '-', ' || '.join(desc['model'])))
         chk.coverage['correspondence']['compared'] += 1
         chk.count('model', 'kill-compared')
-        if mrep.split()[1:] != got:
+        zero_ic = {nm_ for nm_, tk_ in orig.items() if nm_[0] in 'CL' and len(tk_) == 5 and tk_[4] == '0'}
+        norm_k = lambda l_: [('kept:' + x_[5:]) if x_.startswith('noic:') and x_[5:] in zero_ic else x_ for x_ in l_]   # noqa
+        if norm_k(mrep.split()[1:]) != norm_k(got):
             chk.coverage['correspondence']['disagreements'] += 1
             L['disagreements'].append({'stream': 'groups', 'netlist': desc['lcapy'], 'what': '%s %s' % (kl['mode'], kl['names']),
                                        'model': mrep, 'lcapy': ' '.join(got)})
     return 0
+
+
+
+# --------------------------------------------------------------------------------------------------------- PROBES
+# Defects that are present on the current tree; each runs only when known-findings.json lists its key (see finding_listed).
+
+PROBE_KEYS = {
+    'ivp-noncausal': {'kind': 'superposition', 'analysis': 'ivp', 'noncausal_source': True},
+    'decompose-phasor-after-t': {'kind': 'decompose', 'cause': 'phasor-key-after-t'},
+    'fact-dc': {'kind': 'regrouping', 'route': 'factored-source', 'probe': 'fact-dc'},
+    'fact-tr': {'kind': 'regrouping', 'route': 'factored-source', 'probe': 'fact-tr'},
+}
+
+
+def probes(chk, drv, L, rng, n):
+    lcapy, S = L['lcapy'], L['S']
+    tt, ss = L['t'], L['s']
+    ncex = 0
+    R = lambda x: S.Rational(Fraction(x).numerator, Fraction(x).denominator)   # noqa
+    for name, key in PROBE_KEYS.items():
+        if not finding_listed(chk, key):
+            chk.count('probe', name + ':not-listed-skipped')
+            continue
+        for i in range(n):
+            chk.count('probe', name)
+            if name in ('fact-dc', 'fact-tr'):
+                d = gen_lap_case(rng, [0, 6, 4, 10][i % 4], probe=name)      # non-ivp single-source templates
+                d['ivp'] = False
+                ncex += lap_case(chk, drv, d, L)
+            elif name == 'ivp-noncausal':
+                # an initial-value problem driven by a NON-causal source (dc / ac keyword): whole = source alone + ICs alone
+                r, c0 = Fraction(rng.randint(1, 5)), Fraction(rng.randint(1, 3))
+                ic = Fraction(rng.randint(1, 6))
+                src = rng.choice(['ac %d 0 %d' % (rng.randint(1, 5), rng.randint(1, 3)), 'dc %d' % rng.randint(1, 5)])
+                lines = ['V1 1 0 ' + src, 'R1 1 2 %s' % fs(r), rng.choice(['C1 2 0 %s %s', 'L1 2 0 %s %s']) % (fs(c0), fs(ic))]
+                s0 = Fraction(rng.randint(1, 9), rng.randint(2, 5))
+                try:
+                    with common.time_limit(60):
+                        cct = lcapy.Circuit('\n'.join(lines))
+                        at = lambda V: common.gauss_rational(S.simplify(V.laplace().sympy.subs(ss.sympy, R(s0))))   # noqa
+                        whole = at(cct['2'].V)
+                        a = at(cct.kill_except('V1')['2'].V)
+                        b = at(cct.kill_except('ICs')['2'].V)
+                    chk.case(('probe-ivp', tuple(lines)), True)
+                    if None not in (whole, a, b) and (a[0] + b[0], a[1] + b[1]) != whole:
+                        ncex += 1
+                        chk.counterexample(key, {'input': {'netlist': lines, 's': fstr(s0), 'node': '2'},
+                                                 'lcapy': {'whole': str(whole), 'V1 alone': str(a), 'ICs alone': str(b)},
+                                                 'spec': 'V(s) = response to the source alone (zero initial state) + response to the initial conditions alone'},
+                                           'initial-value problem with a non-causal source: the single-source circuit built by kill_except drops the '
+                                           'initial conditions instead of zeroing them and is analysed in steady state')
+                except (Exception, common.TimeLimit) as e:   # noqa
+                    chk.count('lcapy-error', 'probe-ivp:' + type(e).__name__)
+            else:
+                # a time-domain sinusoid and an explicit phasor of the SAME frequency added into one superposition
+                from lcapy.superpositionvoltage import SuperpositionVoltage
+                from lcapy import phasor
+                w, a, b = rng.randint(1, 4), rng.randint(1, 5), rng.randint(1, 5)
+                try:
+                    sup = SuperpositionVoltage('%d*cos(%d*t)' % (a, w)) + SuperpositionVoltage(phasor(b, omega=w))
+                    dec = sup.decompose()
+                    got = {str(k_): common.gauss_rational(S.expand_complex(v_.sympy)) for k_, v_ in dec.items()}
+                    rep = drv.ask1('dec.run ac:%d:%d:0 ac:%d:%d:0' % (w, a, w, b))
+                    chk.case(('probe-dec', w, a, b), True)
+                    if got != {str(w): (Fraction(a + b), Fraction(0))}:
+                        ncex += 1
+                        chk.counterexample(key, {'input': {'expression': '%d*cos(%d*t)  +  phasor(%d, omega=%d)' % (a, w, b, w)},
+                                                 'lcapy': {'decompose()': str(dec), 'time()': str(sup.time())}, 'model': rep,
+                                                 'spec': 'the decomposition accumulates the phasors of one frequency (Lean model)'},
+                                           'Superposition.decompose() overwrites the phasor obtained from the time-domain part with the explicit phasor of the same frequency')
+                except Exception as e:   # noqa
+                    chk.count('lcapy-error', 'probe-dec:' + type(e).__name__)
+    return ncex
